@@ -4,8 +4,22 @@ Require Extraction.
 Require Import ExtrOcamlBasic.
 From EPD Require Import Iface Ops Hal Run Panels.
 From EPD Require Big.Model.
+From EPD Require Pure.Rect Pure.Color Pure.Graphics Pure.Aliases.
 Extraction Language OCaml.
 Separate Extraction
   Iface.bapply Iface.calls Ops.op Ops.mkFeat Hal.expand Hal.mk_cfg Hal.den Run.call Run.construct Run.icalls_of
   Panels.driver_of Panels.all_panels
-  Iface.dlen Big.Model.exec Big.Model.bexpand Big.Model.call Big.Model.new_control_state.
+  Iface.dlen Big.Model.exec Big.Model.bexpand Big.Model.call Big.Model.new_control_state
+  (* pure functions (ocaml/pure.ml) *)
+  Rect.intersect Rect.sub_offset Rect.is_empty
+  Color.all_color Color.all_tri Color.all_oct
+  Color.get_bit_value Color.get_byte_value Color.from_u8 Color.inverse
+  Color.color_from_raw_u1 Color.color_to_raw_u1 Color.color_from_binary
+  Color.color_from_rgb888 Color.color_from_rgb565 Color.color_from_rgb555 Color.color_to_rgb
+  Color.tri_bit_value Color.tri_byte_value Color.tri_from_raw_u2 Color.tri_from_binary
+  Color.tri_from_rgb888 Color.tri_to_rgb888
+  Color.get_nibble Color.colors_byte Color.from_nibble Color.split_byte Color.rgb
+  Color.oct_from_binary Color.oct_from_raw_u4 Color.oct_from_rgb888
+  Graphics.bitmask Graphics.buffer_len Graphics.line_bytes Graphics.buffer_size Graphics.var_new_ok
+  Graphics.set_pixel Graphics.apply_write Graphics.size Graphics.all_rot
+  Aliases.aliases.
